@@ -24,12 +24,21 @@ LEVEL_TEXT = (
     "theorem ylm_norm_eq_code (over the reals the normalised recursion of the oracle returns the rows of the code-shaped "
     "recursion, every l_max); the array implementation that runs on the files is tied to the generic Lean recursions "
     "ylmNorm/ylmCode and to the library's own harmonics by differential runs. "
-    "No theorem about the data is claimed."
+    "Proof tier (partial, in addition): the 20 smallest tables (Lebedev degree <= 11, spherical designs <= 11, maximum-determinant <= 9) are "
+    "regenerated from the .npz files on every run into Gen/AngularData/*.lean as exact dyadic rationals; in each generated file the kernel "
+    "decides (decide +kernel, exact integer arithmetic) that every monomial x^a y^b z^c of total degree <= the advertised degree is "
+    "integrated to 1e-13 and that every node is on the unit sphere to 1e-13; Props/C02/Sound.lean turns this into statements about the "
+    "rational quadrature sums (allOkUnit_sound, allOk4pi_sound with Mathlib's 20-digit enclosure of pi) and, by linearity, about every "
+    "polynomial of that degree (poly_bound). The closed form of the monomial means over the sphere is stated, not derived (checked "
+    "against numerical integration by the correspondence). For the other 430 files no theorem is claimed (kernel cost: 2.2 GB at degree 13)."
 )
 TECHNIQUE = ("complete enumeration with a native Lean oracle (normalised spherical-harmonic recursion), cross-checked against "
              "the library's own harmonics and, for failing files, a 30-digit mpmath evaluation of the definition")
-GEN = []
-LEAN_MODULES = ["GridVerif.Props.C08"]
+GEN = ["angular_data"]
+LEAN_MODULES = ["GridVerif.Props.C08", "GridVerif.Props.C02.Exact"]
+CARRIED = ["lebedev_3_6", "lebedev_5_18", "lebedev_7_26", "lebedev_9_38", "lebedev_11_50", "spherical_1_2", "spherical_3_6", "spherical_5_12",
+           "spherical_7_32", "spherical_9_48", "spherical_11_70", "maxdet_1_4", "maxdet_2_9", "maxdet_3_16", "maxdet_4_25", "maxdet_5_36",
+           "maxdet_6_49", "maxdet_7_64", "maxdet_8_81", "maxdet_9_100"]
 # no theorem about the data; these C08 theorems anchor the harmonics the oracle integrates (order, normalisation, sign)
 THEOREMS = [
     "GridVerif.C08.row_index_bij",
@@ -38,7 +47,11 @@ THEOREMS = [
     "GridVerif.C08.ylm_low_degree",
     "GridVerif.C08.ylm_norm_eq_code",
     "GridVerif.C08.weights_sum",
-]
+    # proof tier: the 20 smallest shipped tables, regenerated into Lean as exact dyadic rationals, integrate every monomial of
+    # degree <= advertised degree to 1e-13 (kernel-decided integer statements + soundness over Q / R + linearity)
+    "GridVerif.C02.allOkUnit_sound", "GridVerif.C02.allOk4pi_sound", "GridVerif.C02.quadQ_eq", "GridVerif.C02.poly_bound",
+    "GridVerif.C02.carried_eq", "GridVerif.C02.lebedev_11_50_poly",
+] + [f"GridVerif.C02.{n}_exact" for n in CARRIED]
 RULE = (
     "one evaluation = one data file loaded through AngularGrid(degree, method) and checked by the Lean oracle for all (l, m) "
     "with l <= advertised degree (quick tier: the files outside the full selection are screened on 9 orders m, all l; "
@@ -172,11 +185,65 @@ def err_by_degree(mom, L):
 # --------------------------------------------------------------------------------------
 # correspondence: the oracle against the generic Lean recursions and the library's harmonics
 # --------------------------------------------------------------------------------------
+def _corr_carried(ctx: Ctx, ang):
+    """The tables carried into Lean (Gen/AngularData/*.lean): (a) the integers of the generated file denote exactly the arrays
+    the loader hands to AngularGrid; (b) the exact rational moments of that table, times 4 pi where the constructor multiplies,
+    agree with AngularGrid(...).integrate of the monomial; (c) the closed form of the sphere means used by the theorems agrees
+    with an independent numerical integration (mpmath, product Gauss-Legendre x trapezoid, exact for these polynomials)."""
+    import re
+    from fractions import Fraction
+    from ..common import LEAN
+    from ..translate import angular_data as ad
+    import mpmath as mp
+
+    def dfact(n):
+        return 1 if n <= 1 else n * dfact(n - 2)
+
+    def mean(a, b, c):
+        if a % 2 or b % 2 or c % 2:
+            return Fraction(0)
+        return Fraction(dfact(a - 1) * dfact(b - 1) * dfact(c - 1), dfact(a + b + c + 1))
+    # (c) closed form vs numerical integration
+    with mp.workdps(30):
+        for a, b, c in [(0, 0, 0), (2, 0, 0), (0, 2, 2), (4, 2, 0), (2, 2, 2), (6, 0, 4), (1, 2, 0), (3, 3, 2), (8, 2, 0), (4, 4, 2)] + \
+                [tuple(ctx.rng.randrange(0, 7) for _ in range(3)) for _ in range(6)]:
+            num = mp.quad(lambda th: mp.quad(lambda ph: (mp.sin(th) * mp.cos(ph)) ** a * (mp.sin(th) * mp.sin(ph)) ** b * mp.cos(th) ** c * mp.sin(th),
+                                             [0, mp.pi, 2 * mp.pi]), [0, mp.pi / 2, mp.pi]) / (4 * mp.pi)
+            ctx.count(["sphere-mean", a, b, c], nontrivial=True, tag="sphere-mean")
+            if abs(num - mp.mpf(mean(a, b, c).numerator) / mean(a, b, c).denominator) > mp.mpf(10) ** -15:
+                ctx.fail("corr", "sphere-mean", f"closed form of the mean of x^{a} y^{b} z^{c} over the sphere is {mean(a, b, c)}, numerical integration gives {mp.nstr(num, 18)}")
+    for meth, d, kind, deg, size in ad.selected():
+        name = ad.camel(meth, deg, size)
+        text = (LEAN / "GridVerif" / "Gen" / "AngularData" / f"{name}.lean").read_text()
+        m = re.search(r"def table : Table := ⟨(\d+), (\d+), \[(.*?)\]⟩", text, re.S)
+        rows = [tuple(int(x) for x in r.split(",")) for r in re.findall(r"\(([-\d, ]+)\)", m.group(3))]
+        kp, kw = int(m.group(1)), int(m.group(2))
+        P, W = ang.AngularGrid._load_precomputed_angular_grid(deg, size, meth)
+        P, W = np.asarray(P, dtype=float), np.asarray(W, dtype=float)
+        ctx.count(["carried", meth, deg, size], nontrivial=True, tag="carried:" + meth)
+        same = len(rows) == len(W) == size and all(
+            Fraction(r[0], 2 ** kw) == Fraction(float(W[i])) and all(Fraction(r[1 + k], 2 ** kp) == Fraction(float(P[i, k])) for k in range(3))
+            for i, r in enumerate(rows))
+        if not same:
+            ctx.fail("corr", f"carried:{meth}_{deg}_{size}", f"Gen/AngularData/{name}.lean does not denote the arrays the loader returns for {meth}_{deg}_{size}")
+            continue
+        g = ang.AngularGrid(degree=deg, method=meth, cache=False)
+        for a, b, c in [(0, 0, 0)] + [tuple(t) for t in ([ctx.rng.randrange(0, deg + 1) for _ in range(3)] for _ in range(12)) if sum(t) <= deg][:5]:
+            exact = sum(Fraction(r[0], 2 ** kw) * Fraction(r[1], 2 ** kp) ** a * Fraction(r[2], 2 ** kp) ** b * Fraction(r[3], 2 ** kp) ** c for r in rows)
+            model = float(exact) * (4 * math.pi if kind == "Unit" else 1.0)
+            impl = float(g.integrate(g.points[:, 0] ** a * g.points[:, 1] ** b * g.points[:, 2] ** c))
+            ctx.count(["carried-moment", meth, deg, a, b, c], nontrivial=a + b + c > 0, tag="carried-moment")
+            if not abs(impl - model) <= 1e-13 * 4 * math.pi or not abs(model - 4 * math.pi * float(mean(a, b, c))) <= 2e-12:
+                ctx.fail("corr", f"carried:{meth}_{deg}_{size}:moment", f"{meth}_{deg}_{size}: x^{a} y^{b} z^{c}: AngularGrid.integrate {impl!r}, exact table moment {model!r}, "
+                         f"4 pi x sphere mean {4 * math.pi * float(mean(a, b, c))!r}", witness={"method": meth, "degree": deg, "monomial": [a, b, c]})
+
+
 def corr(ctx: Ctx):
     ang = importlib.import_module("grid.angular")
     ut = importlib.import_module("grid.utils")
     from ..common import f2b
     files = all_files(ang)
+    _corr_carried(ctx, ang)
 
     # (1) array oracle vs generic ylmNorm / ylmCode (Lean) vs library, on whole small files: full moment vectors
     small = [f for f in files if f[2] <= 120 and f[1] <= 20]
